@@ -37,6 +37,7 @@ type Task struct {
 	kids    map[string]int
 	exited  bool
 	adopted bool
+	budget  int // parallel mode: optional yields this task may still pass through
 	Panic   any
 	Stack   string
 }
@@ -67,10 +68,10 @@ func (h eventHeap) Less(i, j int) bool {
 	}
 	return h[i].seq < h[j].seq
 }
-func (h eventHeap) Swap(i, j int)  { h[i], h[j] = h[j], h[i]; h[i].idx = i; h[j].idx = j }
-func (h *eventHeap) Push(x any)    { e := x.(*event); e.idx = len(*h); *h = append(*h, e) }
-func (h *eventHeap) Pop() any      { o := *h; n := len(o); e := o[n-1]; *h = o[:n-1]; return e }
-func (h eventHeap) peek() *event   { return h[0] }
+func (h eventHeap) Swap(i, j int) { h[i], h[j] = h[j], h[i]; h[i].idx = i; h[j].idx = j }
+func (h *eventHeap) Push(x any)   { e := x.(*event); e.idx = len(*h); *h = append(*h, e) }
+func (h *eventHeap) Pop() any     { o := *h; n := len(o); e := o[n-1]; *h = o[:n-1]; return e }
+func (h eventHeap) peek() *event  { return h[0] }
 
 // Config of one run.
 type Config struct {
@@ -82,6 +83,13 @@ type Config struct {
 	// Sticky is the probability that the scheduler keeps running the same
 	// task in search mode (choice 0). 0 means: pick per run from the seed.
 	Sticky float64
+	// Parallel > 0 turns on "parallel rounds" (only used by the C20 race check):
+	// with this probability a step releases several parked tasks at once, and a
+	// released task passes through up to ParallelBudget optional yield points
+	// before it parks again, so that the Go race detector sees the tasks'
+	// steps as concurrent. Exact replay is lost in this mode.
+	Parallel       float64
+	ParallelBudget int
 	// OnlySites, when non-empty, restricts optional yield points to sites
 	// containing one of these substrings (site-targeted strategy).
 	OnlySites []string
@@ -91,17 +99,18 @@ type Config struct {
 type Sched struct {
 	cfg Config
 
-	mu       sync.Mutex
-	byGoid   map[int64]*Task
-	parked   map[*Task]struct{}
-	tasks    []*Task
-	anon     map[string]int
-	signal   chan struct{}
-	abortCh  chan struct{}
-	aborting atomic.Bool
+	mu         sync.Mutex
+	byGoid     map[int64]*Task
+	byGoidSync sync.Map
+	parked     map[*Task]struct{}
+	tasks      []*Task
+	anon       map[string]int
+	signal     chan struct{}
+	abortCh    chan struct{}
+	aborting   atomic.Bool
 
 	last  *Task
-	step  int
+	step  atomic.Int64
 	start time.Time
 
 	tapeMu    sync.Mutex
@@ -122,10 +131,11 @@ type Sched struct {
 	stopped    atomic.Bool
 
 	// Stats
-	Preemptions int
-	Choices     map[string]int
-	SitesUsed   map[string]int
-	Faults      map[string]int
+	ParallelRounds int
+	Preemptions    int
+	Choices        map[string]int
+	SitesUsed      map[string]int
+	Faults         map[string]int
 }
 
 // New creates a scheduler; it must be created and run inside a synctest bubble.
@@ -164,7 +174,7 @@ func (s *Sched) Uninstall() { cur.CompareAndSwap(s, nil) }
 
 // Now returns simulated time since the start of the run.
 func (s *Sched) Now() time.Duration { return time.Since(s.start) }
-func (s *Sched) Step() int          { return s.step }
+func (s *Sched) Step() int          { return int(s.step.Load()) }
 func (s *Sched) Tape() []int        { return append([]int(nil), s.tape...) }
 func (s *Sched) Hash() uint64       { return s.hash }
 func (s *Sched) Trace() []string    { return s.trace }
@@ -186,7 +196,7 @@ func (s *Sched) Fault(kind string) {
 func (s *Sched) Logf(format string, args ...any) {
 	msg := fmt.Sprintf(format, args...)
 	s.logMu.Lock()
-	line := strconv.Itoa(s.step) + " " + strconv.FormatInt(int64(s.Now()/time.Microsecond), 10) + "us " + msg
+	line := strconv.Itoa(int(s.step.Load())) + " " + strconv.FormatInt(int64(s.Now()/time.Microsecond), 10) + "us " + msg
 	h := fnv.New64a()
 	var b [8]byte
 	for i := 0; i < 8; i++ {
@@ -266,6 +276,14 @@ func goid() int64 {
 
 func (s *Sched) current() *Task {
 	id := goid()
+	if s.cfg.Parallel > 0 {
+		// lock-free in parallel mode: a mutex here would order the steps of
+		// concurrently released tasks and hide races from the detector
+		if v, ok := s.byGoidSync.Load(id); ok {
+			return v.(*Task)
+		}
+		return nil
+	}
 	s.mu.Lock()
 	t := s.byGoid[id]
 	s.mu.Unlock()
@@ -311,6 +329,7 @@ func (s *Sched) adopt(hint string) *Task {
 	s.anon[hint] = n + 1
 	t := &Task{Label: "~" + hint + "#" + strconv.Itoa(n), goid: id, wake: make(chan struct{}), adopted: true}
 	s.byGoid[id] = t
+	s.byGoidSync.Store(id, t)
 	s.tasks = append(s.tasks, t)
 	return t
 }
@@ -361,6 +380,7 @@ func (s *Sched) spawn(label string, f func()) *Task {
 		s.mu.Lock()
 		s.byGoid[t.goid] = t
 		s.mu.Unlock()
+		s.byGoidSync.Store(t.goid, t)
 		defer s.finish(t)
 		s.park(t, "start")
 		f()
@@ -375,7 +395,7 @@ func (s *Sched) finish(t *Task) {
 		t.Panic = r
 		t.Stack = string(buf[:n])
 		s.mu.Lock()
-		s.panics = append(s.panics, PanicInfo{Label: t.Label, Value: fmt.Sprint(r), Stack: t.Stack, Step: s.step})
+		s.panics = append(s.panics, PanicInfo{Label: t.Label, Value: fmt.Sprint(r), Stack: t.Stack, Step: int(s.step.Load())})
 		s.mu.Unlock()
 		s.Logf("PANIC task=%s value=%v", t.Label, r)
 	}
@@ -383,6 +403,7 @@ func (s *Sched) finish(t *Task) {
 	t.exited = true
 	delete(s.byGoid, t.goid)
 	s.mu.Unlock()
+	s.byGoidSync.Delete(t.goid)
 	select {
 	case s.signal <- struct{}{}:
 	default:
@@ -425,6 +446,13 @@ func Yield(site string) {
 		return
 	}
 	if len(s.cfg.OnlySites) > 0 && !s.siteSelected(site) {
+		if s.aborting.Load() {
+			runtime.Goexit()
+		}
+		return
+	}
+	if t.budget > 0 {
+		t.budget--
 		if s.aborting.Load() {
 			runtime.Goexit()
 		}
@@ -556,7 +584,7 @@ func (s *Sched) Run(invariant func() string) string {
 		if len(s.Panics()) > 0 {
 			return "panic"
 		}
-		if s.step >= s.cfg.MaxSteps {
+		if int(s.step.Load()) >= s.cfg.MaxSteps {
 			return "budget"
 		}
 		now := time.Now()
@@ -604,7 +632,28 @@ func (s *Sched) Run(invariant func() string) string {
 			}
 		}
 		a := acts[i]
-		s.step++
+		s.step.Add(1)
+		if a.t != nil && s.cfg.Parallel > 0 && s.rng.Float64() < s.cfg.Parallel {
+			// parallel round: release a set of parked tasks at once
+			var set []*Task
+			for _, o := range acts {
+				if o.t != nil && (o.t == a.t || s.rng.IntN(2) == 0) {
+					set = append(set, o.t)
+				}
+			}
+			s.ParallelRounds++
+			s.mu.Lock()
+			for _, t := range set {
+				delete(s.parked, t)
+				t.budget = 1 + s.rng.IntN(s.cfg.ParallelBudget+1)
+			}
+			s.mu.Unlock()
+			s.last = a.t
+			for _, t := range set {
+				t.wake <- struct{}{}
+			}
+			continue
+		}
 		if a.t != nil {
 			if s.last != nil && a.t != s.last {
 				if _, ok := s.parked[s.last]; ok {
@@ -721,7 +770,7 @@ func (s *Sched) Tasks() []*Task {
 }
 
 // BlockedWhat / BlockedSince expose wedge diagnostics for oracles.
-func (t *Task) BlockedWhat() string      { return t.blocked }
-func (t *Task) BlockedSince() time.Time  { return t.since }
-func (t *Task) Site() string             { return t.site }
-func (t *Task) Adopted() bool            { return t.adopted }
+func (t *Task) BlockedWhat() string     { return t.blocked }
+func (t *Task) BlockedSince() time.Time { return t.since }
+func (t *Task) Site() string            { return t.site }
+func (t *Task) Adopted() bool           { return t.adopted }
